@@ -546,6 +546,15 @@ class Exec:
                 if isinstance(v, Struct): return U64(len(v.f))
                 raise Unsupported('Len of ' + type(v).__name__)
             return f
+        m = re.match(r'^(const .*) as (\w+) \(IntToInt\)$', s)
+        if m:
+            cv = self._c_const(m.group(1)); w = _INT_W.get(m.group(2)); neg = re.match(r'^const -', m.group(1)) is not None
+            if w is None: raise Unsupported('IntToInt to ' + m.group(2))
+            def f(fr):
+                v = cv(fr)
+                if v.size() == w: return v
+                return z3.Extract(w - 1, 0, v) if v.size() > w else (z3.SignExt if neg else z3.ZeroExt)(w - v.size(), v)
+            return f
         m = re.match(r'^(copy|move) (.*) as (.*) \((\w+)(\(.*\))?\)$', s)
         if m:
             p = self._c_place(m.group(2)); ty = m.group(3); kind = m.group(4)
